@@ -89,6 +89,9 @@ def write_cases(cases, path, rng=None, variants=False):
             classes = CLS
             # every other font carries the pass-skip bits a compiler would compute: the engine then leaves passes out
             m = gdl.font_model(c["prog"], classes, ADV, GATTR, c["rtl"], nlinear=nlin, nfeat=len(c.get("feats", [])), passbits=(k % 2 == 1))
+            if k % 4 >= 2:          # half of the fonts list every success state's rules in descending order
+                for ps in m["passes"]:
+                    ps["rm_rev"] = 1
             d = dict(c)
             d["id"] = "c%d" % k
             d["font_hex"] = gfont.build_font(m, silf_version=ver).hex()
